@@ -54,7 +54,7 @@ func main() {
 		bad := 0
 		for _, r := range res {
 			fmt.Printf("%-10s %-40s %s\n", r.Status, r.ID, r.Detail)
-			if r.Status == "SURVIVED" || r.Status == "ERROR" {
+			if r.Status == "SURVIVED" || r.Status == "ERROR" || r.Status == "FALSE-ALARM" {
 				bad++
 			}
 		}
@@ -129,7 +129,7 @@ func thorough(c *props.Check, r *core.Report, repo, known string, findings []cor
 	for _, x := range res {
 		table = append(table, map[string]string{"id": x.ID, "status": x.Status, "detail": x.Detail})
 		switch x.Status {
-		case "KILLED":
+		case "KILLED", "CLEAN":
 			tried++
 			killed++
 		case "NA":
@@ -152,7 +152,9 @@ func selfTest(ids []string, repo, known string, seed int64) []mutRes {
 	}
 	if seed != 0 {
 		// the seed only orders the queue
-		sort.SliceStable(ms, func(i, j int) bool { return (int64(i)*7919+seed)%int64(len(ms)+1) < (int64(j)*7919+seed)%int64(len(ms)+1) })
+		sort.SliceStable(ms, func(i, j int) bool {
+			return (int64(i)*7919+seed)%int64(len(ms)+1) < (int64(j)*7919+seed)%int64(len(ms)+1)
+		})
 	}
 	self, _ := os.Executable()
 	out := make([]mutRes, len(ms))
@@ -176,9 +178,17 @@ func selfTest(ids []string, repo, known string, seed int64) []mutRes {
 				st = "SURVIVED"
 			case strings.HasPrefix(last, "MUTANT NA"):
 				st = "NA"
+			case strings.HasPrefix(last, "MUTANT CLEAN"):
+				st = "CLEAN"
+			case strings.HasPrefix(last, "MUTANT FALSE-ALARM"):
+				st = "FALSE-ALARM"
 			}
 			_ = err
-			out[i] = mutRes{ID: ms[i].ID, Status: st, Detail: strings.TrimSpace(strings.TrimPrefix(strings.TrimPrefix(strings.TrimPrefix(last, "MUTANT KILLED"), "MUTANT SURVIVED"), "MUTANT NA"))}
+			detail := last
+			if f := strings.Fields(last); len(f) >= 2 {
+				detail = strings.TrimSpace(strings.TrimPrefix(last, f[0]+" "+f[1]))
+			}
+			out[i] = mutRes{ID: ms[i].ID, Status: st, Detail: detail}
 		}(i)
 	}
 	wg.Wait()
@@ -235,6 +245,15 @@ func runMutant(id, repo, known string) int {
 		if strings.Contains(d.Key(), m.Expect) {
 			hit = append(hit, d.Key()+" @"+d.Pos)
 		}
+	}
+	if m.Negative {
+		n := r.NewViolations(findings)
+		if n == 0 {
+			fmt.Printf("MUTANT CLEAN negative control raised no diagnostic\n")
+			return 0
+		}
+		fmt.Printf("MUTANT FALSE-ALARM negative control raised %d diagnostics\n", n)
+		return 3
 	}
 	if len(hit) > 0 {
 		fmt.Printf("MUTANT KILLED %s\n", hit[0])
